@@ -61,11 +61,55 @@ def _pool_init():
     os.environ["INFOCF_LOGLEVEL"] = "ERROR"
 
 
+class WorkerDied(Exception):
+    """a worker process died (native crash in a solver, kill) while evaluating `item`"""
+
+    def __init__(self, item):
+        super().__init__("worker process died while evaluating: " + repr(item)[:600])
+        self.item = item
+
+
+def _run_pool(fn, items, procs, daemon_ok=True):
+    """map over a process pool that notices dead workers (multiprocessing.Pool.map would hang for ever);
+    returns (results dict index -> value, indices that were not finished when the pool broke)"""
+    from concurrent.futures import ProcessPoolExecutor, as_completed
+    from concurrent.futures.process import BrokenProcessPool
+
+    done, lost = {}, []
+    with ProcessPoolExecutor(max_workers=procs, mp_context=mp.get_context("fork"), initializer=_pool_init) as ex:
+        futs = {ex.submit(fn, x): i for i, x in items}
+        for f in as_completed(futs):
+            i = futs[f]
+            try:
+                done[i] = f.result()
+            except BrokenProcessPool:
+                lost.append(i)
+    return done, sorted(lost)
+
+
 def pmap(fn, items, procs):
+    items = list(items)
     if procs <= 1 or len(items) < 4:
         return [fn(x) for x in items]
-    with mp.get_context("fork").Pool(procs, initializer=_pool_init) as pool:
-        return pool.map(fn, items, chunksize=max(1, len(items) // (procs * 8)))
+    pending = list(enumerate(items))
+    results = {}
+    rounds = 0
+    while pending:
+        rounds += 1
+        # after two broken pools the remaining items run one per pool, so that the culprit is identified
+        width = procs if rounds <= 2 else 1
+        if width > 1:
+            done, lost = _run_pool(fn, pending, width)
+            results.update(done)
+            pending = [(i, items[i]) for i in lost]
+        else:
+            for i, x in pending:
+                done, lost = _run_pool(fn, [(i, x)], 1)
+                if lost:
+                    raise WorkerDied(x)
+                results.update(done)
+            pending = []
+    return [results[i] for i in range(len(items))]
 
 
 def pmap_nd(fn, items, procs):
